@@ -452,10 +452,14 @@ pub(crate) struct ConnectSpec {
     pub dst: SocketAddr,
     pub label: Option<String>,
     pub chaos: Option<Chaos>,
+    /// netfilter TPROXY: the client addresses `dst`, the connection is handed to the (proxy)
+    /// listener at this address, which sees `dst` as its local address / original destination
+    pub divert: Option<SocketAddr>,
 }
 
 pub(crate) async fn connect(spec: ConnectSpec) -> io::Result<crate::net::TcpStream> {
-    let dst = spec.dst;
+    let orig = spec.dst;
+    let dst = spec.divert.unwrap_or(spec.dst);
     let start = {
         let mut w = world();
         w.log("tcp_connect", 0, 0, format!("{}>{}", if spec.proxy { "proxy" } else { "harness" }, dst))
@@ -546,16 +550,36 @@ pub(crate) async fn connect(spec: ConnectSpec) -> io::Result<crate::net::TcpStre
     } else {
         src
     };
-    let local_seen = if laddr.ip().is_unspecified() { dst } else { laddr };
+    let local_seen = if spec.divert.is_some() {
+        orig
+    } else if laddr.ip().is_unspecified() {
+        dst
+    } else {
+        laddr
+    };
+    let dst = orig; // what the client believes it is talking to
+    let diverted = spec.divert.map(|_| orig);
     let (client, server) = if kernel {
         let (a, b) = std::os::unix::net::UnixStream::pair()?;
         a.set_nonblocking(true)?;
         b.set_nonblocking(true)?;
+        if chaos.capacity > 0 && chaos.capacity < (1 << 20) {
+            // finite socket buffers on the kernel lane: SO_SNDBUF of both ends (the kernel doubles the
+            // value and enforces its own minimum), so that writes and splices can come up short
+            use std::os::unix::io::AsRawFd;
+            let v: libc::c_int = chaos.capacity as libc::c_int;
+            for fd in [a.as_raw_fd(), b.as_raw_fd()] {
+                unsafe {
+                    libc::setsockopt(fd, libc::SOL_SOCKET, libc::SO_SNDBUF, &v as *const _ as *const libc::c_void, std::mem::size_of::<libc::c_int>() as libc::socklen_t);
+                }
+            }
+            w.count("kernel_small_sndbuf");
+        }
         let a = real_tokio::net::UnixStream::from_std(a)?;
         let b = real_tokio::net::UnixStream::from_std(b)?;
         (
             crate::net::TcpStream::from_kernel(a, src, dst, id),
-            crate::net::TcpStream::from_kernel(b, local_seen, peer_seen, id),
+            crate::net::TcpStream::from_kernel(b, local_seen, peer_seen, id).with_original_dst(diverted),
         )
     } else {
         let c0 = cap(&mut rng, &chaos);
@@ -573,7 +597,7 @@ pub(crate) async fn connect(spec: ConnectSpec) -> io::Result<crate::net::TcpStre
         w.conns.insert(id, cs);
         (
             crate::net::TcpStream::from_mem(MemEnd { conn: id, end: 0, local: src, peer: dst }),
-            crate::net::TcpStream::from_mem(MemEnd { conn: id, end: 1, local: local_seen, peer: peer_seen }),
+            crate::net::TcpStream::from_mem(MemEnd { conn: id, end: 1, local: local_seen, peer: peer_seen }).with_original_dst(diverted),
         )
     };
     w.log("tcp_established", id, 0, format!("{} {}>{}", label, src, dst));
@@ -602,6 +626,28 @@ pub async fn tcp_connect_from(
         dst,
         label: Some(label.to_string()),
         chaos,
+        divert: None,
+    })
+    .await
+}
+
+/// Harness: a connection addressed to `dst` that the (simulated) netfilter TPROXY rule hands
+/// to the proxy's listener at `via`.
+pub async fn tcp_connect_diverted(
+    src_ip: IpAddr,
+    dst: SocketAddr,
+    via: SocketAddr,
+    label: &str,
+    chaos: Option<Chaos>,
+) -> io::Result<crate::net::TcpStream> {
+    connect(ConnectSpec {
+        proxy: false,
+        bind: None,
+        src_ip: Some(src_ip),
+        dst,
+        label: Some(label.to_string()),
+        chaos,
+        divert: Some(via),
     })
     .await
 }
